@@ -61,6 +61,16 @@ def sites():
             # statement deletion: storage writes, event emissions, ttl extensions, cross-contract calls whose result is unused
             if re.match(r'\s*(event::\w+\(|extend_\w+\(|env\.storage\(\)|[\w.]+\.(set|remove|extend_ttl)\()', code) and code.rstrip().endswith(';') and not s.startswith('let '):
                 res.append(dict(file=rel, line=i, kind='delete-effect', old=[l], new=[re.match(r'\s*', l).group(0) + '// (deleted)']))
+            # swallowed failures: `f(..)?;` → `let _ = f(..);`   and   `client.call(..);` → `let _ = client.try_call(..);`
+            m = re.match(r'(\s*)([\w:.&]+\(.*\))\?;\s*$', code)
+            if m and not s.startswith(('let ', 'return')):
+                res.append(dict(file=rel, line=i, kind='swallow-error', old=[l], new=[f"{m.group(1)}let _ = {m.group(2)};"]))
+            m = re.match(r'(\s*)(\w+)\.(\w+)\((.*)\);\s*$', code)
+            if m and not s.startswith(('let ', 'return')) and not m.group(3).startswith(('try_', 'set', 'remove', 'extend', 'publish', 'push', 'require_auth', 'emit', 'copy', 'insert')):
+                res.append(dict(file=rel, line=i, kind='swallow-error', old=[l], new=[f"{m.group(1)}let _ = {m.group(2)}.try_{m.group(3)}({m.group(4)});"]))
+            # early success: a fallible function returns Ok(()) before doing anything
+            if re.match(r'\s*(pub )?fn \w+.*-> Result<\(\), ContractError> \{\s*$', code):
+                res.append(dict(file=rel, line=i, kind='early-ok', old=[l], new=[l + ' return Ok(());']))
             # integer literal off by one (not in attribute / const-generic positions)
             for m in re.finditer(r'(?<![\w.])(\d+)(?![\w.])', code):
                 v = int(m.group(1))
